@@ -1381,3 +1381,69 @@ func isBankSource(P *Program, fn *ssa.Function) bool {
 	}
 	return true
 }
+
+// ---------- CP-FRESH (C02, C09, C07)
+
+// ruleCPFresh: a stateful compressor keeps an output buffer between calls. The
+// bytes a call returns must be that call's output alone: the buffer is emptied
+// (Reset) on every path before anything is written into it, in compress and
+// in decompress alike. (A buffer that is not emptied makes block N carry the
+// streams of blocks 1..N, under block N's count and an accumulated length.)
+func ruleCPFresh(c *Ctx, s *readFileShape) {
+	c.Rule("CP-FRESH", "a compressor's reusable output buffer is emptied on every path before the call's output is written into it, so what is returned is this call's output and nothing else", 2)
+	P := c.P
+	if !c.Anchor(s.compIface != nil, "compression interface") {
+		return
+	}
+	for _, impl := range implementations(P, s.compIface) {
+		for _, mname := range []string{"compress", "decompress"} {
+			m := P.Method(impl, mname)
+			if m == nil || m.Blocks == nil {
+				continue
+			}
+			// the buffer whose bytes are returned
+			for _, r := range returnsOf(m) {
+				res := resolvedResults(r)
+				if isNilConst(res[0]) {
+					continue
+				}
+				call, ok := res[0].(*ssa.Call)
+				if !ok || call.Call.StaticCallee() == nil || qualName(call.Call.StaticCallee()) != "(*bytes.Buffer).Bytes" {
+					continue
+				}
+				bufPath := accessPath(call.Call.Args[0])
+				key := fmt.Sprintf("%s/output-buffer-emptied", fnKey(m))
+				var resets []*ssa.Call
+				var writers []ssa.Instruction
+				for _, cs := range callsIn(m) {
+					if cs.Static == nil {
+						continue
+					}
+					q := qualName(cs.Static)
+					switch {
+					case q == "(*bytes.Buffer).Reset" && accessPath(cs.Common.Args[0]) == bufPath && cs.Value() != nil:
+						resets = append(resets, cs.Value())
+					case strings.HasPrefix(q, "(*bytes.Buffer).") && strings.Contains(q, "Read") && accessPath(cs.Common.Args[0]) == bufPath, strings.HasPrefix(q, "(*bytes.Buffer).Write") && accessPath(cs.Common.Args[0]) == bufPath:
+						writers = append(writers, cs.Instr)
+					case q == "(*compress/flate.Writer).Write" || q == "(*compress/flate.Writer).Close" || q == "(*compress/flate.Writer).Flush":
+						writers = append(writers, cs.Instr)
+					}
+				}
+				ok2 := false
+				for _, rs := range resets {
+					all := dominatesInstr(rs, r)
+					for _, w := range writers {
+						if !dominatesInstr(rs, w) {
+							all = false
+						}
+					}
+					if all {
+						ok2 = true
+					}
+				}
+				c.Check(ok2, key, P.pos(m.Pos()), "Reset of the output buffer dominates every write into it and the return of its bytes", "the compressor's output buffer is not emptied on every path before this call writes into it: from the second call on, what is returned starts with the output of earlier calls")
+				break
+			}
+		}
+	}
+}
